@@ -361,6 +361,10 @@ type interp struct {
 	fails   []failure
 	tainted string // once a builder-after-Build violation was seen, later failures are attributed to it
 	hist    map[string]int
+
+	// numbering of the real heap objects (header, nodes, backing arrays) by first visit: the sharing
+	// between versions, compared with what the heap-level model predicts (token `al=`)
+	alias *immutable.VerifAliasTable
 }
 
 func newInterp(direct bool, hist map[string]int) *interp {
@@ -499,6 +503,37 @@ func (it *interp) reset(hid int) {
 	it.mbAdd, it.mbBuild, it.mbRef = nil, nil, nil
 	it.sbAdd, it.sbBuild, it.sbRef = nil, nil, nil
 	it.tainted = ""
+	it.alias = immutable.NewVerifAliasTable()
+}
+
+// aliasToken is `aliasTok` of the oracle on the REAL pointers.
+func (it *interp) aliasToken(v *ver) string {
+	if it.alias == nil {
+		it.alias = immutable.NewVerifAliasTable()
+	}
+	var n, k int
+	var d uint64
+	ok := false
+	if v.isSet {
+		if b, _, bk := v.hamtBaseSet(); bk == bHamt {
+			n, k, d, ok = immutable.VerifAlias(it.alias, b)
+		}
+	} else {
+		if b, bk := v.hamtBaseMap(); bk == bHamt {
+			n, k, d, ok = immutable.VerifAlias(it.alias, b)
+		}
+	}
+	if !ok {
+		return "al=-"
+	}
+	if k == 0 {
+		it.count("alias:nothing-fresh")
+	} else if k == n {
+		it.count("alias:all-fresh")
+	} else {
+		it.count("alias:shared+fresh")
+	}
+	return "al=" + strconv.Itoa(n) + "/" + strconv.Itoa(k) + ":" + hex(d)
 }
 
 // push appends a version produced by `mk` (run under recover). On a panic of the implementation a
@@ -547,7 +582,7 @@ func (it *interp) push(op string, isSet bool, ref map[int]int, operands []int, m
 	if strings.HasPrefix(v.first, "panic(") {
 		return v.first
 	}
-	return "v" + strconv.Itoa(id) + " " + v.first
+	return "v" + strconv.Itoa(id) + " " + v.first + " " + it.aliasToken(v)
 }
 
 func (it *interp) step(e *Sx) string {
